@@ -48,7 +48,7 @@ Proof. exact zero_totals_no_positions. Qed.
 (* instruction level: the real instruction handlers (deposit, withdraw(all), borrow, repay(all), close_balance,
    liquidate with its four legs over two banks and two accounts, handle_bankruptcy, accrue, collect_fees) as modelled in
    Handlers.v: from a well-formed world (HOk2, which contains the ledger invariant), after any history of instructions
-   with u64 amounts (liquidator <> liquidatee) that does not wipe a bank out, every bank's totals still cover the sum of
+   with u64 amounts that does not wipe a bank out, every bank's totals still cover the sum of
    all positions recorded in all accounts *)
 Theorem C02_instruction_level :
   forall ops w, HOk2 w -> Forall hop_ok2 ops -> run_no_wipeout w ops ->
